@@ -43,8 +43,14 @@ def busyOfReq (σ : Sched) (t : Task) (r : Req) : Int × Int :=
         (if σ.isSched t then (σ.dynS r.worker t.name, σ.dynE r.worker t.name) else (t.pastPoint, t.pastPoint))
       else (tStartOf σ t + max 0 r.delayIn, tEndOf σ t - max 0 r.earlyOut)
 
-/-- the interpretation of the encoding's variables that corresponds to schedule σ -/
-def envOf (st : State) (σ : Sched) : Env :=
+/-- variables of indicators -/
+def IVar.isInd : IVar → Bool
+  | .ind _ => true
+  | .indAuto _ _ => true
+  | _ => false
+
+/-- the interpretation of the primary variables that corresponds to schedule σ -/
+def envPrim (st : State) (σ : Sched) : Env :=
   { i := fun v => match v with
       | .tStart n => (match st.findTask n with | some t => tStartOf σ t | none => 0)
       | .tEnd n => (match st.findTask n with | some t => tEndOf σ t | none => 0)
@@ -60,5 +66,22 @@ def envOf (st : State) (σ : Sched) : Env :=
       | .sel s w => σ.sel s w
       | .applied c => σ.applied c
       | _ => false }
+
+/-- the interpretation of the encoding's variables that corresponds to schedule σ: the primary variables as above,
+    and every indicator defined by a single equation `indicator = T` at the value of `T` -/
+def envOf (st : State) (σ : Sched) : Env :=
+  { envPrim st σ with
+    i := fun v =>
+      if v.isInd then
+        (match st.indicators.find? (fun ind => ind.var == v) with
+         | some ind => (match ind.body.defTerm with
+             | some T => T.evalB (envPrim st σ)
+             | none => (envPrim st σ).i v)
+         | none => (envPrim st σ).i v)
+      else (envPrim st σ).i v }
+
+theorem envOf_prim (st : State) (σ : Sched) (v : IVar) (h : v.isInd = false) :
+    (envOf st σ).i v = (envPrim st σ).i v := by
+  simp [envOf, h]
 
 end PS
